@@ -314,11 +314,30 @@ Definition validate (ks : option keyset) : bool :=
 (* ------------------------------------------------------------------ *)
 (* per-type parsers and primitive constructors                         *)
 (* ------------------------------------------------------------------ *)
+(* What the model asks of the Go standard library (answered by the stdlib
+   oracle at run time; every theorem holds for ARBITRARY such functions):
+   ec_point_ok c pt        crypto/ecdh curve.NewPublicKey(pt) succeeds (c = 2, 3, 4: NIST P-256/384/521, 5: X25519)
+   ec_pub_of_priv c d      curve.NewPrivateKey(d) succeeds; its PublicKey().Bytes()
+   ed25519_pub seed        ed25519.NewKeyFromSeed(seed).Public() for a 32-byte seed
+   mlkem_pub k seed        mlkem.NewDecapsulationKey768/1024(seed) succeeds; EncapsulationKey().Bytes() (k = 768, 1024)
+   shake256 m n            sha3.SHAKE256 of m, n bytes of output
+   rsa_crt n e d p q       rsa.PrivateKey{N,E,D,Primes:{p,q}}.Validate() succeeds; after Precompute():
+                           Precomputed.Dp.Bytes(), Dq.Bytes(), Qinv.Bytes()
+   rsa_selfcheck pss hash salt n e d p q
+                           signing "Tink and Wycheproof." with the key (PKCS1v15 or PSS with that salt
+                           length) succeeds and the signature verifies under (n, e) *)
+Record stdlib := mkStd {
+  ec_point_ok : N -> bytes -> bool;
+  ec_pub_of_priv : N -> bytes -> option bytes;
+  ed25519_pub : bytes -> bytes;
+  mlkem_pub : N -> bytes -> option bytes;
+  shake256 : bytes -> nat -> bytes;
+  rsa_crt : bytes -> N -> bytes -> bytes -> bytes -> option (bytes * bytes * bytes);
+  rsa_selfcheck : bool -> N -> N -> bytes -> N -> bytes -> bytes -> bytes -> bool
+}.
+
 Section Keys.
-(* crypto/ecdh: curve.NewPublicKey(point) succeeds; curve.NewPrivateKey(d)
-   succeeds and returns the encoded public point *)
-Variable ec_point_ok : N -> bytes -> bool.
-Variable ec_pub_of_priv : N -> bytes -> option bytes.
+Variable L : stdlib.
 
 (* the type URLs as byte strings (computed here so that the extracted code
    holds plain byte lists) *)
@@ -338,6 +357,28 @@ Definition u_rsa_pss_pub : bytes := Eval vm_compute in bytes_of_string url_rsa_p
 Definition u_chacha : bytes := Eval vm_compute in bytes_of_string url_chacha.
 Definition u_xchacha : bytes := Eval vm_compute in bytes_of_string url_xchacha.
 Definition u_xaes_gcm : bytes := Eval vm_compute in bytes_of_string url_xaes_gcm.
+Definition u_ed25519_pub : bytes := Eval vm_compute in bytes_of_string url_ed25519_pub.
+Definition u_ed25519_priv : bytes := Eval vm_compute in bytes_of_string url_ed25519_priv.
+Definition u_rsa_pkcs1_priv : bytes := Eval vm_compute in bytes_of_string url_rsa_pkcs1_priv.
+Definition u_rsa_pss_priv : bytes := Eval vm_compute in bytes_of_string url_rsa_pss_priv.
+Definition u_ecies_pub : bytes := Eval vm_compute in bytes_of_string url_ecies_pub.
+Definition u_ecies_priv : bytes := Eval vm_compute in bytes_of_string url_ecies_priv.
+Definition u_hpke_pub : bytes := Eval vm_compute in bytes_of_string url_hpke_pub.
+Definition u_hpke_priv : bytes := Eval vm_compute in bytes_of_string url_hpke_priv.
+Definition u_stream_gcm_hkdf : bytes := Eval vm_compute in bytes_of_string url_stream_gcm_hkdf.
+Definition u_stream_ctr_hmac : bytes := Eval vm_compute in bytes_of_string url_stream_ctr_hmac.
+Definition u_jwt_hmac : bytes := Eval vm_compute in bytes_of_string url_jwt_hmac.
+Definition u_jwt_ecdsa_pub : bytes := Eval vm_compute in bytes_of_string url_jwt_ecdsa_pub.
+Definition u_jwt_ecdsa_priv : bytes := Eval vm_compute in bytes_of_string url_jwt_ecdsa_priv.
+Definition u_jwt_rsa_pkcs1_pub : bytes := Eval vm_compute in bytes_of_string url_jwt_rsa_pkcs1_pub.
+Definition u_jwt_rsa_pss_pub : bytes := Eval vm_compute in bytes_of_string url_jwt_rsa_pss_pub.
+Definition u_mldsa_pub : bytes := Eval vm_compute in bytes_of_string url_mldsa_pub.
+Definition u_slhdsa_pub : bytes := Eval vm_compute in bytes_of_string url_slhdsa_pub.
+Definition u_slhdsa_priv : bytes := Eval vm_compute in bytes_of_string url_slhdsa_priv.
+Definition u_jwt_rsa_pkcs1_priv : bytes := Eval vm_compute in bytes_of_string url_jwt_rsa_pkcs1_priv.
+Definition u_jwt_rsa_pss_priv : bytes := Eval vm_compute in bytes_of_string url_jwt_rsa_pss_priv.
+Definition u_jwt_mldsa_pub : bytes := Eval vm_compute in bytes_of_string url_jwt_mldsa_pub.
+Definition u_c13_outside : list bytes := Eval vm_compute in map bytes_of_string c13_outside_urls.
 Definition u_unmodelled : list bytes := Eval vm_compute in map bytes_of_string unmodelled_urls.
 
 Definition url_is (kd : keydata) (u : bytes) : bool := beq (kd_url kd) u.
@@ -384,6 +425,20 @@ Inductive pkd :=
 | PChaCha (keylen : N)
 | PXChaCha (keylen : N)
 | PXAesGcm (keylen salt : N)
+| PEd25519Pub
+| PEd25519Priv (seed : bytes)
+| PRsaPriv (pss : bool) (bits e hash salt : N)
+| PEcies (private : bool) (curve dem : N) (point : bytes)
+| PHpke (private : bool) (keylen : N)
+| PStreamGcmHkdf (ikm derived seg : N)
+| PStreamCtrHmac (ikm derived hash tag seg : N)
+| PJwtHmac (alg keylen : N)
+| PJwtEcdsa (private : bool) (alg : N) (point : bytes)
+| PJwtRsaPub (pss : bool) (bits e : N)
+| PJwtRsaPriv (pss : bool) (alg bits e : N) (n d p q : bytes)
+| PJwtMlDsaPub
+| PMlDsaPub
+| PSlhDsa (private : bool)
 | PFallback (private : bool).
 
 Definition okb (c : bool) (d : pkd) : outcome pkd := if c then Ok d else Err.
@@ -440,7 +495,7 @@ Definition ecdsa_pub_of (fs : list field) (prefix idreq : N) : outcome (N * N * 
            bind (fixed_size (get_len 4 fs) c) (fun y =>
            bind (encode_point x y c) (fun pt =>
            if negb (negb (prefix =? pt_raw) || (idreq =? 0)) then Err
-           else if ec_point_ok curve pt then Ok (curve, hash, enc, pt) else Err)))
+           else if ec_point_ok L curve pt then Ok (curve, hash, enc, pt) else Err)))
        end.
 
 Definition sch_scalar := Sch [] [].
@@ -462,6 +517,521 @@ Definition exponent_value (e : option N) : N := match e with Some e => e | None 
 Definition rsa_hash_ok (h : N) : bool := (h =? h_sha256) || (h =? h_sha384) || (h =? h_sha512).
 (* int32 field as a signed value is > 0 *)
 Definition int32_positive (v : N) : bool := (1 <=? v) && (v <? 2147483648).
+
+(* ---- Ed25519: signature/ed25519/{protoserialization,key,signer,verifier}.go ---- *)
+(* crypto/ed25519 NewKeyFromSeed panics unless the seed has 32 bytes *)
+Definition ed25519_from_seed (seed : bytes) : outcome bytes :=
+  if blen seed =? ed25519_seed_size then Ok (ed25519_pub L seed) else Panic.
+
+Definition parse_ed25519_pub (kd : keydata) (prefix idreq : N) : outcome pkd :=
+  let v := kd_value kd in
+  let fs := fields_or_nil v in
+  if negb (kd_mat kd =? km_public) then Err else
+  if negb (wire_ok sch_scalar v) then Err else
+  okb ((get_u32 1 fs =? 0) && variant_ok prefix idreq
+       && (blen (get_len 2 fs) =? ed25519_pub_size)) PEd25519Pub.
+
+Definition parse_ed25519_priv (kd : keydata) (prefix idreq : N) : outcome pkd :=
+  let v := kd_value kd in
+  let fs := fields_or_nil v in
+  if negb (kd_mat kd =? km_private) then Err else
+  if negb (wire_ok sch_params3 v) then Err else     (* public_key = 3 *)
+  let pub := get_sub 3 fs in
+  let seed := get_len 2 fs in
+  if negb ((get_u32 1 fs =? 0) && (get_u32 1 pub =? 0) && variant_ok prefix idreq
+           && (blen (get_len 2 pub) =? ed25519_pub_size)) then Err
+  else if negb (blen seed =? ed25519_seed_size) then Err
+  else bind (ed25519_from_seed seed) (fun pk =>
+       if beq pk (get_len 2 pub) then Ok (PEd25519Priv seed) else Err).
+
+(* ---- RSA-SSA-PKCS1 / RSA-SSA-PSS private keys:
+   signature/rsassa{pkcs1,pss}/{protoserialization,key,signer,verifier}.go,
+   internal/signature/rsa.go ---- *)
+(* removeLeadingZeros = new(big.Int).SetBytes(b).Bytes() *)
+Fixpoint strip_zeros (b : bytes) : bytes :=
+  match b with
+  | [] => []
+  | x :: t => if x =? 0 then strip_zeros t else b
+  end.
+
+Definition sch_rsa_priv := Sch [(2, sch_params2)] [].    (* public_key = 2 { params = 2 } *)
+
+Definition parse_rsa_priv (pss : bool) (kd : keydata) (prefix idreq : N) : outcome pkd :=
+  let v := kd_value kd in
+  let fs := fields_or_nil v in
+  if negb (kd_mat kd =? km_private) then Err else
+  if negb (wire_ok sch_rsa_priv v) then Err else
+  let pub := get_sub 2 fs in
+  let params := get_sub 2 pub in
+  let hash := get_u32 1 params in
+  let mgf := get_u32 2 params in
+  let salt := if pss then get_u32 3 params else 0 in
+  let n := get_len 3 pub in
+  let bits := N.size (be_val n) in
+  let eo := rsa_exponent (get_len 4 pub) in
+  let e := exponent_value eo in
+  let d := get_len 3 fs in
+  let p := get_len 4 fs in
+  let q := get_len 5 fs in
+  (* version, variantFromProto, hashTypeFromProto, IsInt64, (salt length != 0,)
+     NewParameters, public key version, NewPublicKey *)
+  if negb ((get_u32 1 fs =? 0) && known_prefix prefix && rsa_hash_ok hash
+           && (if pss then rsa_hash_ok mgf && int32_positive salt && (mgf =? hash) else true)
+           && (rsa_min_bits_parse <=? bits) && rsa_exponent_parse_ok eo
+           && (get_u32 1 pub =? 0) && (negb (prefix =? pt_raw) || (idreq =? 0))) then Err
+  else
+    (* NewPrivateKey: privateKey.Validate(); Precompute() *)
+    match rsa_crt L n e d p q with
+    | None => Err
+    | Some (dp, dq, qinv) =>
+        (* privateKeySelfCheck: NewSigner and NewVerifier apply the limits of
+           the primitive constructor, then a signature is made and verified *)
+        if negb ((rsa_min_bits_prim <=? bits) && (e =? rsa_exponent_prim)) then Err
+        else if negb (rsa_selfcheck L pss hash salt n e d p q) then Err
+        else okb (beq dp (strip_zeros (get_len 6 fs)) && beq dq (strip_zeros (get_len 7 fs))
+                  && beq qinv (strip_zeros (get_len 8 fs)))
+                 (PRsaPriv pss bits e hash salt)
+    end.
+
+(* ---- ECIES-AEAD-HKDF: hybrid/ecies/{protoserialization,parameters,key,
+   hybrid_encrypt,hybrid_decrypt}.go, hybrid/internal/ecies/dem_helper.go ---- *)
+Definition sch_keytemplate := Sch [] [1].                       (* KeyTemplate: type_url is a string *)
+Definition sch_ecies_dem := Sch [(2, sch_keytemplate)] [].
+Definition sch_ecies_params := Sch [(1, sch_scalar); (2, sch_ecies_dem)] [].
+Definition sch_ecies_pub := Sch [(2, sch_ecies_params)] [].
+Definition sch_ecies_priv := Sch [(2, sch_ecies_pub)] [].
+Definition sch_ctr_hmac_format := Sch [(1, Sch [(1, sch_scalar)] []); (2, Sch [(1, sch_scalar)] [])] [].
+
+(* protoserialization.ParseParameters on the DEM key template (its prefix
+   type forced to RAW) followed by isAllowedDEMParameters: which of the six
+   allowed parameter sets the template denotes.  The parameters parsers of
+   AES-GCM, AES-SIV, XChaCha20-Poly1305 and AES-CTR-HMAC; any other type URL
+   gives parameters that are not in the list, or no parameters at all. *)
+Definition ecies_dem (tmpl : list field) : option N :=
+  let url := get_len 1 tmpl in
+  let v := get_len 2 tmpl in
+  let f := fields_or_nil v in
+  if beq url u_aes_gcm then              (* AesGcmKeyFormat { key_size = 2; version = 3 } *)
+    if wire_ok sch_scalar v && (get_u32 3 f =? 0) then
+      if get_u32 2 f =? dem_gcm_key_a then Some dem_aes128_gcm
+      else if get_u32 2 f =? dem_gcm_key_b then Some dem_aes256_gcm else None
+    else None
+  else if beq url u_aes_siv then         (* AesSivKeyFormat { key_size = 1; version = 2 } *)
+    if wire_ok sch_scalar v && (get_u32 2 f =? 0) && (get_u32 1 f =? dem_siv_key) then Some dem_aes256_siv else None
+  else if beq url u_xchacha then         (* XChaCha20Poly1305KeyFormat { version = 1 } *)
+    if wire_ok sch_scalar v && (get_u32 1 f =? 0) then Some dem_xchacha else None
+  else if beq url u_aes_ctr_hmac then    (* { AesCtrKeyFormat{params{iv}=1; key_size=2} = 1; HmacKeyFormat{params{hash;tag}=1; key_size=2; version=3} = 2 } *)
+    let ctr := get_sub 1 f in
+    let hm := get_sub 2 f in
+    if wire_ok sch_ctr_hmac_format v && (get_u32 3 hm =? 0)
+       && (get_u32 2 hm =? dem_ctr_hmac_key) && (get_u32 1 (get_sub 1 ctr) =? dem_ctr_iv)
+       && (get_u32 1 (get_sub 1 hm) =? h_sha256) then
+      if (get_u32 2 ctr =? dem_ctr128_aes) && (get_u32 2 (get_sub 1 hm) =? dem_ctr128_tag) then Some dem_aes128_ctr_hmac
+      else if (get_u32 2 ctr =? dem_ctr256_aes) && (get_u32 2 (get_sub 1 hm) =? dem_ctr256_tag) then Some dem_aes256_ctr_hmac
+      else None
+    else None
+  else None.
+
+Definition ecies_curve_ok (c : N) : bool :=
+  (c =? c_p256) || (c =? c_p384) || (c =? c_p521) || (c =? c_x25519).
+Definition ecies_format_ok (f : N) : bool :=
+  (f =? pf_uncompressed) || (f =? pf_compressed) || (f =? pf_crunchy_uncompressed).
+
+(* parsePublicKey: (curve, dem, public key bytes) *)
+Definition ecies_pub_of (fs : list field) (prefix idreq : N) : outcome (N * N * bytes) :=
+  let params := get_sub 2 fs in
+  let kem := get_sub 1 params in
+  let curve := get_u32 1 kem in
+  let hash := get_u32 2 kem in
+  let fmt := get_u32 3 params in
+  if negb (get_u32 1 fs =? 0) then Err
+  (* parseParameters *)
+  else if negb (ecies_curve_ok curve
+                && match digest_size hash with Some _ => true | None => false end
+                && known_prefix prefix && ecies_format_ok fmt
+                && has_sub 2 params && has_sub 2 (get_sub 2 params)) then Err
+  else match ecies_dem (get_sub 2 (get_sub 2 params)) with
+  | None => Err
+  | Some dem =>
+      if (curve =? c_x25519) && negb (fmt =? pf_compressed) then Err
+      else
+        let pk := if curve =? c_x25519 then Ok (get_len 3 fs)
+                  else match coord_size curve with
+                       | None => Err
+                       | Some c =>
+                           bind (fixed_size (get_len 3 fs) c) (fun x =>
+                           bind (fixed_size (get_len 4 fs) c) (fun y => Ok (4 :: x ++ y)))
+                       end in
+        bind pk (fun pt =>
+        (* NewPublicKey *)
+        if negb (negb (prefix =? pt_raw) || (idreq =? 0)) then Err
+        else if ec_point_ok L curve pt then Ok (curve, dem, pt) else Err)
+  end.
+
+Definition parse_ecies_pub (kd : keydata) (prefix idreq : N) : outcome pkd :=
+  let v := kd_value kd in
+  if negb (kd_mat kd =? km_public) then Err else
+  if negb (wire_ok sch_ecies_pub v) then Err else
+  bind (ecies_pub_of (fields_or_nil v) prefix idreq) (fun r =>
+    match r with (curve, dem, pt) => Ok (PEcies false curve dem pt) end).
+
+Definition parse_ecies_priv (kd : keydata) (prefix idreq : N) : outcome pkd :=
+  let v := kd_value kd in
+  let fs := fields_or_nil v in
+  if negb (kd_mat kd =? km_private) then Err else
+  if negb (wire_ok sch_ecies_priv v) then Err else
+  if negb (get_u32 1 fs =? 0) then Err else
+  bind (ecies_pub_of (get_sub 2 fs) prefix idreq) (fun r =>
+    match r with (curve, dem, pt) =>
+      let priv := if curve =? c_x25519 then Ok (get_len 3 fs)
+                  else match coord_size curve with
+                       | None => Err
+                       | Some c => fixed_size (get_len 3 fs) c
+                       end in
+      bind priv (fun d =>
+      (* NewPrivateKeyFromPublicKey *)
+      match ec_pub_of_priv L curve d with
+      | None => Err
+      | Some pt' => if negb (ec_point_ok L curve pt) then Err
+                    else if beq pt' pt then Ok (PEcies true curve dem pt) else Err
+      end)
+    end).
+
+(* ---- HPKE: hybrid/hpke/{protoserialization,parameters,key,hybrid_encrypt,
+   hybrid_decrypt}.go, hybrid/internal/hpke/{encrypt,decrypt}.go,
+   hybrid/internal/xwing/xwing.go ---- *)
+(* xwing.PublicFromSecret: expandDecapsulationKey (SHAKE256, 64 + 32 bytes),
+   ML-KEM-768 key of the first part, X25519 public key of the second *)
+Definition xwing_pub (sk : bytes) : option bytes :=
+  if negb (blen sk =? xwing_secret_size) then None
+  else let e := shake256 L sk 96 in
+       match mlkem_pub L 768 (firstn 64 e) with
+       | None => None
+       | Some pk_m =>
+           match ec_pub_of_priv L c_x25519 (firstn 32 (skipn 64 e)) with
+           | None => None
+           | Some pk_x => Some (pk_m ++ pk_x)
+           end
+       end.
+
+Definition hpke_ecdh_curve (kem : N) : option N :=
+  if kem =? kem_x25519 then Some c_x25519
+  else if kem =? kem_p256 then Some c_p256
+  else if kem =? kem_p384 then Some c_p384
+  else if kem =? kem_p521 then Some c_p521
+  else None.
+
+(* parsePublicKey: (kem, public key bytes) *)
+Definition hpke_pub_of (fs : list field) (prefix idreq : N) : outcome (N * bytes) :=
+  let params := get_sub 2 fs in
+  let kem := get_u32 1 params in
+  let kdf := get_u32 2 params in
+  let aead := get_u32 3 params in
+  let pk := get_len 3 fs in
+  if negb ((get_u32 1 fs =? 0)
+           && inr kem_x25519 kem_mlkem1024 kem && inr 1 hpke_max_aead aead && inr 1 hpke_max_kdf kdf
+           (* protoOutputPrefixTypeToVariant: no LEGACY *)
+           && ((prefix =? pt_tink) || (prefix =? pt_crunchy) || (prefix =? pt_raw))
+           && (negb (prefix =? pt_raw) || (idreq =? 0))) then Err
+  else
+    let valid :=
+      match hpke_ecdh_curve kem with
+      | Some c => ec_point_ok L c pk
+      | None =>
+          if kem =? kem_xwing then blen pk =? xwing_pub_size
+          else if kem =? kem_mlkem768 then blen pk =? mlkem768_pub_size
+          else blen pk =? mlkem1024_pub_size
+      end in
+    if valid then Ok (kem, pk) else Err.
+
+Definition parse_hpke_pub (kd : keydata) (prefix idreq : N) : outcome pkd :=
+  let v := kd_value kd in
+  if negb (kd_mat kd =? km_public) then Err else
+  if negb (wire_ok sch_params2 v) then Err else
+  bind (hpke_pub_of (fields_or_nil v) prefix idreq) (fun r =>
+    match r with (kem, pk) => Ok (PHpke false (blen pk)) end).
+
+Definition parse_hpke_priv (kd : keydata) (prefix idreq : N) : outcome pkd :=
+  let v := kd_value kd in
+  let fs := fields_or_nil v in
+  if negb (kd_mat kd =? km_private) then Err else
+  if negb (wire_ok sch_rsa_priv v) then Err else           (* public_key = 2 { params = 2 } *)
+  if negb (get_u32 1 fs =? 0) then Err else
+  bind (hpke_pub_of (get_sub 2 fs) prefix idreq) (fun r =>
+    match r with (kem, pk) =>
+      let sk := get_len 3 fs in
+      (* NewPrivateKeyFromPublicKey: the public key of the private key *)
+      let pk' := match hpke_ecdh_curve kem with
+                 | Some c => if ec_point_ok L c pk then ec_pub_of_priv L c sk else None
+                 | None =>
+                     if kem =? kem_xwing then xwing_pub sk
+                     else if kem =? kem_mlkem768 then mlkem_pub L 768 sk
+                     else mlkem_pub L 1024 sk
+                 end in
+      match pk' with
+      | None => Err
+      | Some p => if beq p pk then Ok (PHpke true (blen sk)) else Err
+      end
+    end).
+
+(* ---- streaming AEAD keys: streamingaead/{aesgcmhkdf,aesctrhmac}/ ----
+   Neither parser looks at the output prefix type or the id requirement; the
+   key objects have no id requirement and serialise with prefix RAW. *)
+Definition stream_hash_ok (h : N) : bool := (h =? h_sha1) || (h =? h_sha256) || (h =? h_sha512).
+Definition stream_derived_ok (n : N) : bool := (n =? stream_derived_a) || (n =? stream_derived_b).
+(* int32(uint32 field) >= m for a small positive m *)
+Definition int32_at_least (v m : N) : bool := (v <? 2147483648) && (m <=? v).
+
+Definition parse_stream_gcm_hkdf (kd : keydata) (prefix idreq : N) : outcome pkd :=
+  let v := kd_value kd in
+  let fs := fields_or_nil v in
+  if negb (kd_mat kd =? km_symmetric) then Err else
+  if negb (wire_ok sch_params2 v) then Err else
+  let p := get_sub 2 fs in
+  let seg := get_u32 1 p in
+  let derived := get_u32 2 p in
+  let ikm := blen (get_len 3 fs) in
+  okb ((get_u32 1 fs =? 0) && stream_hash_ok (get_u32 3 p)
+       && stream_derived_ok derived && (derived <=? ikm)
+       && int32_at_least seg (derived + stream_gcm_overhead + 1))
+      (PStreamGcmHkdf ikm derived seg).
+
+Definition sch_stream_ctr_hmac := Sch [(2, Sch [(4, sch_scalar)] [])] [].   (* params = 2 { hmac_params = 4 } *)
+
+Definition parse_stream_ctr_hmac (kd : keydata) (prefix idreq : N) : outcome pkd :=
+  let v := kd_value kd in
+  let fs := fields_or_nil v in
+  if negb (kd_mat kd =? km_symmetric) then Err else
+  if negb (wire_ok sch_stream_ctr_hmac v) then Err else
+  let p := get_sub 2 fs in
+  let seg := get_u32 1 p in
+  let derived := get_u32 2 p in
+  let hash := get_u32 1 (get_sub 4 p) in
+  let tag := get_u32 2 (get_sub 4 p) in
+  let ikm := blen (get_len 3 fs) in
+  okb ((get_u32 1 fs =? 0) && stream_hash_ok (get_u32 3 p) && stream_hash_ok hash
+       && stream_derived_ok derived && (derived <=? ikm)
+       && (stream_min_tag <=? tag)
+       && match digest_size hash with Some dg => tag <=? dg | None => false end
+       && int32_at_least seg (derived + stream_ctr_overhead + tag + 1))
+      (PStreamCtrHmac ikm derived hash tag seg).
+
+(* ---- JWT keys: jwt/{jwthmac,jwtecdsa,jwtrsassapkcs1,jwtrsassapss}/, jwt/jwt_full_*.go ---- *)
+Definition sch_custom_kid := Sch [] [1].                      (* CustomKid { string value = 1 } *)
+Definition sch_jwt_hmac := Sch [(4, sch_custom_kid)] [].
+Definition sch_jwt_pub := Sch [(5, sch_custom_kid)] [].       (* JwtEcdsaPublicKey / JwtRsaSsa*PublicKey *)
+Definition sch_jwt_priv := Sch [(2, sch_jwt_pub)] [].
+
+Definition jwt_alg_ok (a : N) : bool := (a =? jwt_alg_256) || (a =? jwt_alg_384) || (a =? jwt_alg_512).
+
+(* kidStrategyFromOutputPrefixType + NewParameters (a strategy is known) +
+   NewKey / NewPublicKey (no id requirement unless TINK) + computeKID (no
+   custom kid with TINK) *)
+Definition jwt_kid_ok (prefix idreq : N) (custom : bool) : bool :=
+  ((prefix =? pt_tink) && negb custom) || ((prefix =? pt_raw) && (idreq =? 0)).
+
+Definition jwt_hmac_min_key (a : N) : N :=
+  if a =? jwt_alg_256 then jwt_hs256_min_key
+  else if a =? jwt_alg_384 then jwt_hs384_min_key else jwt_hs512_min_key.
+Definition jwt_hash (a : N) : N :=
+  if a =? jwt_alg_256 then h_sha256 else if a =? jwt_alg_384 then h_sha384 else h_sha512.
+Definition jwt_tag (a : N) : N :=
+  if a =? jwt_alg_256 then dg_sha256 else if a =? jwt_alg_384 then dg_sha384 else dg_sha512.
+
+Definition parse_jwt_hmac (kd : keydata) (prefix idreq : N) : outcome pkd :=
+  let v := kd_value kd in
+  let fs := fields_or_nil v in
+  if negb (kd_mat kd =? km_symmetric) then Err else
+  if negb (wire_ok sch_jwt_hmac v) then Err else
+  let alg := get_u32 2 fs in
+  let kl := blen (get_len 3 fs) in
+  okb ((get_u32 1 fs =? 0) && jwt_alg_ok alg && (jwt_hmac_min_key alg <=? kl)
+       && jwt_kid_ok prefix idreq (has_sub 4 fs))
+      (PJwtHmac alg kl).
+
+Definition jwt_curve (a : N) : N :=
+  if a =? jwt_alg_256 then c_p256 else if a =? jwt_alg_384 then c_p384 else c_p521.
+
+(* publicKeyFromProto *)
+Definition jwt_ecdsa_pub_of (fs : list field) (prefix idreq : N) : outcome (N * bytes) :=
+  let alg := get_u32 2 fs in
+  if negb ((get_u32 1 fs =? 0) && jwt_alg_ok alg) then Err
+  else match coord_size (jwt_curve alg) with
+       | None => Err
+       | Some c =>
+           bind (fixed_size (get_len 3 fs) c) (fun x =>
+           bind (fixed_size (get_len 4 fs) c) (fun y =>
+           if negb (jwt_kid_ok prefix idreq (has_sub 5 fs)) then Err
+           else if ec_point_ok L (jwt_curve alg) (4 :: x ++ y) then Ok (alg, 4 :: x ++ y) else Err))
+       end.
+
+Definition parse_jwt_ecdsa_pub (kd : keydata) (prefix idreq : N) : outcome pkd :=
+  let v := kd_value kd in
+  if negb (kd_mat kd =? km_public) then Err else
+  if negb (wire_ok sch_jwt_pub v) then Err else
+  bind (jwt_ecdsa_pub_of (fields_or_nil v) prefix idreq) (fun r =>
+    match r with (alg, pt) => Ok (PJwtEcdsa false alg pt) end).
+
+Definition parse_jwt_ecdsa_priv (kd : keydata) (prefix idreq : N) : outcome pkd :=
+  let v := kd_value kd in
+  let fs := fields_or_nil v in
+  if negb (kd_mat kd =? km_private) then Err else
+  if negb (wire_ok sch_jwt_priv v) then Err else
+  if negb (get_u32 1 fs =? 0) then Err else
+  bind (jwt_ecdsa_pub_of (get_sub 2 fs) prefix idreq) (fun r =>
+    match r with (alg, pt) =>
+      match coord_size (jwt_curve alg) with
+      | None => Err
+      | Some c =>
+          bind (fixed_size (get_len 3 fs) c) (fun d =>
+          match ec_pub_of_priv L (jwt_curve alg) d with
+          | None => Err
+          | Some pt' => if beq pt pt' then Ok (PJwtEcdsa true alg pt) else Err
+          end)
+      end
+    end).
+
+Definition parse_jwt_rsa_pub (pss : bool) (kd : keydata) (prefix idreq : N) : outcome pkd :=
+  let v := kd_value kd in
+  let fs := fields_or_nil v in
+  if negb (kd_mat kd =? km_public) then Err else
+  if negb (wire_ok sch_jwt_pub v) then Err else
+  let bits := N.size (be_val (get_len 3 fs)) in
+  let e := rsa_exponent (get_len 4 fs) in
+  okb ((get_u32 1 fs =? 0) && (rsa_min_bits_parse <=? bits) && jwt_alg_ok (get_u32 2 fs)
+       && rsa_exponent_parse_ok e && jwt_kid_ok prefix idreq (has_sub 5 fs))
+      (PJwtRsaPub pss bits (exponent_value e)).
+
+(* JwtRsaSsa{Pkcs1,Pss}PrivateKey: publicKeyFromProto on public_key = 2, then
+   NewPrivateKey (Validate, Precompute; no self check here) and the
+   comparison of dp, dq, crt *)
+Definition parse_jwt_rsa_priv (pss : bool) (kd : keydata) (prefix idreq : N) : outcome pkd :=
+  let v := kd_value kd in
+  let fs := fields_or_nil v in
+  if negb (kd_mat kd =? km_private) then Err else
+  if negb (wire_ok sch_jwt_priv v) then Err else
+  let pub := get_sub 2 fs in
+  let n := get_len 3 pub in
+  let bits := N.size (be_val n) in
+  let eo := rsa_exponent (get_len 4 pub) in
+  let e := exponent_value eo in
+  let d := get_len 3 fs in
+  let p := get_len 4 fs in
+  let q := get_len 5 fs in
+  if negb ((get_u32 1 fs =? 0) && (get_u32 1 pub =? 0) && (rsa_min_bits_parse <=? bits)
+           && jwt_alg_ok (get_u32 2 pub) && rsa_exponent_parse_ok eo
+           && jwt_kid_ok prefix idreq (has_sub 5 pub)) then Err
+  else match rsa_crt L n e d p q with
+       | None => Err
+       | Some (dp, dq, qinv) =>
+           okb (beq dp (strip_zeros (get_len 6 fs)) && beq dq (strip_zeros (get_len 7 fs))
+                && beq qinv (strip_zeros (get_len 8 fs)))
+               (PJwtRsaPriv pss (get_u32 2 pub) bits e n d p q)
+       end.
+
+(* JwtMlDsaPublicKey { version = 1; algorithm = 2; key_value = 3; custom_kid = 4 } *)
+Definition parse_jwt_mldsa_pub (kd : keydata) (prefix idreq : N) : outcome pkd :=
+  let v := kd_value kd in
+  let fs := fields_or_nil v in
+  if negb (kd_mat kd =? km_public) then Err else
+  if negb (wire_ok sch_jwt_hmac v) then Err else
+  let alg := get_u32 2 fs in
+  let kl := blen (get_len 3 fs) in
+  okb ((get_u32 1 fs =? 0) && jwt_kid_ok prefix idreq (has_sub 4 fs)
+       && (if alg =? jwt_mldsa_44 then kl =? mldsa44_pub_size
+           else if alg =? jwt_mldsa_65 then kl =? mldsa65_pub_size
+           else if alg =? jwt_mldsa_87 then kl =? mldsa87_pub_size else false))
+      PJwtMlDsaPub.
+
+(* ---- ML-DSA public key: signature/mldsa/{protoserialization,key,verifier}.go ---- *)
+Definition parse_mldsa_pub (kd : keydata) (prefix idreq : N) : outcome pkd :=
+  let v := kd_value kd in
+  let fs := fields_or_nil v in
+  if negb (kd_mat kd =? km_public) then Err else
+  if negb (wire_ok sch_params3 v) then Err else
+  let inst := get_u32 1 (get_sub 3 fs) in
+  let kl := blen (get_len 2 fs) in
+  okb ((get_u32 1 fs =? 0)
+       && ((prefix =? pt_tink) || (prefix =? pt_raw) || (prefix =? pt_with_id_requirement))
+       && (negb (prefix =? pt_raw) || (idreq =? 0))
+       && (if inst =? mldsa_44 then kl =? mldsa44_pub_size
+           else if inst =? mldsa_65 then kl =? mldsa65_pub_size
+           else if inst =? mldsa_87 then kl =? mldsa87_pub_size else false))
+      PMlDsaPub.
+
+(* ---- SLH-DSA: signature/slhdsa/{protoserialization,key,signer,verifier}.go,
+   internal/signature/slhdsa DecodeSecretKey ---- *)
+(* hashTypeFromProto, signatureTypeFromProto, NewParameters (the 12 supported
+   sets: every hash and signature type with a private key of 64, 96 or 128
+   bytes), NewPublicKey: the key size 4n *)
+Definition slhdsa_pub_of (fs : list field) (prefix idreq : N) : option N :=
+  let params := get_sub 3 fs in
+  let ks := get_u32 1 params in
+  let hash := get_u32 2 params in
+  let sig := get_u32 3 params in
+  if (get_u32 1 fs =? 0) && ((prefix =? pt_tink) || (prefix =? pt_raw))
+     && ((hash =? 1) || (hash =? 2)) && ((sig =? 1) || (sig =? 2))
+     && ((ks =? slhdsa_key_a) || (ks =? slhdsa_key_b) || (ks =? slhdsa_key_c))
+     && (negb (prefix =? pt_raw) || (idreq =? 0))
+     && (blen (get_len 2 fs) * 2 =? ks)
+  then Some ks else None.
+
+Definition parse_slhdsa_pub (kd : keydata) (prefix idreq : N) : outcome pkd :=
+  let v := kd_value kd in
+  if negb (kd_mat kd =? km_public) then Err else
+  if negb (wire_ok sch_params3 v) then Err else
+  match slhdsa_pub_of (fields_or_nil v) prefix idreq with
+  | Some _ => Ok (PSlhDsa false)
+  | None => Err
+  end.
+
+Definition sch_slhdsa_priv := Sch [(3, sch_params3)] [].      (* public_key = 3 { params = 3 } *)
+
+Definition parse_slhdsa_priv (kd : keydata) (prefix idreq : N) : outcome pkd :=
+  let v := kd_value kd in
+  let fs := fields_or_nil v in
+  if negb (kd_mat kd =? km_private) then Err else
+  if negb (wire_ok sch_slhdsa_priv v) then Err else
+  if negb (get_u32 1 fs =? 0) then Err else
+  match slhdsa_pub_of (get_sub 3 fs) prefix idreq with
+  | None => Err
+  | Some ks =>
+      let sk := get_len 2 fs in
+      if negb (blen sk =? ks) then Err       (* checkPrivateKeyLengthForParameters *)
+      else
+        (* DecodeSecretKey: skEnc[2n:3n] and skEnc[3n:4n] are the public key *)
+        let n := N.to_nat (ks / 4) in
+        bind (slice (2 * n) (3 * n) sk) (fun pk_seed =>
+        bind (slice (3 * n) (4 * n) sk) (fun pk_root =>
+        if beq (pk_seed ++ pk_root) (get_len 2 (get_sub 3 fs)) then Ok (PSlhDsa true) else Err))
+  end.
+
+(* the key types modelled in the second round, then the fallback key: no
+   parser registered = NewFallbackProtoKey / NewFallbackProtoPrivateKey, which
+   only need calculateOutputPrefix to know the prefix type *)
+Definition parse_key_more (kd : keydata) (prefix idreq : N) : outcome pkd :=
+  if url_is kd u_ed25519_pub then parse_ed25519_pub kd prefix idreq
+  else if url_is kd u_ed25519_priv then parse_ed25519_priv kd prefix idreq
+  else if url_is kd u_rsa_pkcs1_priv then parse_rsa_priv false kd prefix idreq
+  else if url_is kd u_rsa_pss_priv then parse_rsa_priv true kd prefix idreq
+  else if url_is kd u_ecies_pub then parse_ecies_pub kd prefix idreq
+  else if url_is kd u_ecies_priv then parse_ecies_priv kd prefix idreq
+  else if url_is kd u_hpke_pub then parse_hpke_pub kd prefix idreq
+  else if url_is kd u_hpke_priv then parse_hpke_priv kd prefix idreq
+  else if url_is kd u_stream_gcm_hkdf then parse_stream_gcm_hkdf kd prefix idreq
+  else if url_is kd u_stream_ctr_hmac then parse_stream_ctr_hmac kd prefix idreq
+  else if url_is kd u_jwt_hmac then parse_jwt_hmac kd prefix idreq
+  else if url_is kd u_jwt_ecdsa_pub then parse_jwt_ecdsa_pub kd prefix idreq
+  else if url_is kd u_jwt_ecdsa_priv then parse_jwt_ecdsa_priv kd prefix idreq
+  else if url_is kd u_jwt_rsa_pkcs1_pub then parse_jwt_rsa_pub false kd prefix idreq
+  else if url_is kd u_jwt_rsa_pss_pub then parse_jwt_rsa_pub true kd prefix idreq
+  else if url_is kd u_jwt_rsa_pkcs1_priv then parse_jwt_rsa_priv false kd prefix idreq
+  else if url_is kd u_jwt_rsa_pss_priv then parse_jwt_rsa_priv true kd prefix idreq
+  else if url_is kd u_jwt_mldsa_pub then parse_jwt_mldsa_pub kd prefix idreq
+  else if url_is kd u_mldsa_pub then parse_mldsa_pub kd prefix idreq
+  else if url_is kd u_slhdsa_pub then parse_slhdsa_pub kd prefix idreq
+  else if url_is kd u_slhdsa_priv then parse_slhdsa_priv kd prefix idreq
+  else okb (known_prefix prefix) (PFallback (kd_mat kd =? km_private)).
 
 (* protoserialization.ParseKey: the parser registered for the type URL, or
    the fallback key.  Err = the parser returns an error. *)
@@ -555,7 +1125,7 @@ Definition parse_key (kd : keydata) (prefix idreq : N) : outcome pkd :=
         | None => Err
         | Some c =>
             bind (fixed_size (get_len 3 fs) c) (fun d =>
-              match ec_pub_of_priv curve d with
+              match ec_pub_of_priv L curve d with
               | None => Err
               | Some pt' => if beq pt' pt then Ok (PEcdsaPriv curve hash enc pt d) else Err
               end)
@@ -601,10 +1171,7 @@ Definition parse_key (kd : keydata) (prefix idreq : N) : outcome pkd :=
          && (negb (prefix =? pt_raw) || (idreq =? 0))
          && (xaes_min_salt <=? salt) && (salt <=? xaes_max_salt) && (kl =? xaes_key_size))
         (PXAesGcm kl salt)
-  else
-    (* no parser registered: NewFallbackProtoKey / NewFallbackProtoPrivateKey,
-       which only need calculateOutputPrefix to know the prefix type *)
-    okb (known_prefix prefix) (PFallback (mat =? km_private)).
+  else parse_key_more kd prefix idreq.
 
 (* The primitive constructor registered for the key type (what
    registryconfig.PrimitiveFromKey reaches): Ok true = a primitive is
@@ -624,7 +1191,7 @@ Definition prim_ok (d : pkd) : outcome bool :=
   | PHmacPrf hash kl =>
       Ok ((hmacprf_min_key_prim <=? kl) && match digest_size hash with None => false | Some _ => true end)
   | PAesCmacPrf kl => Ok (kl =? cmacprf_key_prim)
-  | PEcdsaPub _ _ _ pt | PEcdsaPriv _ _ _ pt _ =>
+  | PEcdsaPub _ _ _ pt | PEcdsaPriv _ _ _ pt _ | PJwtEcdsa _ _ pt =>
       (* NewVerifier/NewSigner: xy := publicPoint[1:]; xy[:len(xy)/2]; xy[len(xy)/2:] *)
       bind (slice 1 (length pt) pt) (fun xy =>
       bind (slice 0 (Nat.div (length xy) 2) xy) (fun _ =>
@@ -633,7 +1200,65 @@ Definition prim_ok (d : pkd) : outcome bool :=
       Ok ((rsa_min_bits_prim <=? bits) && (e =? rsa_exponent_prim) && rsa_hash_ok hash)
   | PChaCha kl | PXChaCha kl => Ok (kl =? chacha_key_size)
   | PXAesGcm kl _ => Ok (aes_16_32 kl)          (* NewAESCMACPRF -> aescmac.New *)
+  | PEd25519Pub => Ok true
+  | PEd25519Priv seed => bind (ed25519_from_seed seed) (fun _ => Ok true)   (* NewSigner: NewKeyFromSeed *)
+  | PRsaPriv _ bits e hash _ =>        (* New_RSA_SSA_{PKCS1,PSS}_Signer *)
+      Ok ((rsa_min_bits_prim <=? bits) && (e =? rsa_exponent_prim) && rsa_hash_ok hash)
+  | PEcies false curve dem pt =>
+      (* NewHybridEncrypt: subtle.GetCurve knows the NIST curves only;
+         xy := PublicKeyBytes()[1:]; NewDEMHelper; xy[:coordinateSize]; xy[coordinateSize:] *)
+      match coord_size curve with
+      | None => Ok false
+      | Some c =>
+          bind (slice 1 (length pt) pt) (fun xy =>
+          if dem =? dem_xchacha then Ok false
+          else bind (slice 0 c xy) (fun _ =>
+               bind (slice c (length xy) xy) (fun _ => Ok true)))
+      end
+  | PEcies true curve dem _ =>       (* NewHybridDecrypt *)
+      match coord_size curve with
+      | None => Ok false
+      | Some _ => Ok (negb (dem =? dem_xchacha))
+      end
+  | PHpke _ keylen => Ok (negb (keylen =? 0))      (* internal/hpke NewEncrypt / NewDecrypt *)
+  | PStreamGcmHkdf ikm derived seg =>
+      (* primitiveConstructor: ValidateAESKeySize(len(main key)); NewAESGCMHKDF *)
+      Ok (aes_16_32 ikm && (stream_min_main_key <=? ikm) && (derived <=? ikm) && aes_16_32 derived
+          && (derived + stream_gcm_overhead <? seg))
+  | PStreamCtrHmac ikm derived hash tag seg =>
+      (* primitiveConstructor: ValidateAESKeySize(len(main key)); NewAESCTRHMAC *)
+      Ok (aes_16_32 ikm && (stream_min_main_key <=? ikm) && (derived <=? ikm) && aes_16_32 derived
+          && (stream_min_tag <=? tag)
+          && match digest_size hash with Some dg => tag <=? dg | None => false end
+          && (derived + stream_ctr_overhead + tag <? seg))
+  | PJwtHmac alg kl =>               (* createJWTHMAC: hmac.NewParameters, NewKey, NewMAC *)
+      Ok (hmac_params_ok (jwt_hash alg) kl (jwt_tag alg))
+  | PJwtRsaPub _ bits e =>           (* createJWTRSASSA{PKCS1,PSS}Verifier *)
+      Ok ((rsa_min_bits_prim <=? bits) && (e =? rsa_exponent_prim))
+  | PJwtRsaPriv pss alg bits e n d p q =>
+      (* createJWTRSASSA{PKCS1,PSS}Signer: rsassa{pkcs1,pss}.NewPrivateKey on the
+         same numbers: Validate again, then the self check of the plain RSA
+         keys (limits of NewSigner / NewVerifier, sign, verify); PSS salt = digest size *)
+      Ok (match rsa_crt L n e d p q with Some _ => true | None => false end
+          && (rsa_min_bits_prim <=? bits) && (e =? rsa_exponent_prim)
+          && rsa_selfcheck L pss (jwt_hash alg) (if pss then jwt_tag alg else 0) n e d p q)
+  | PJwtMlDsaPub => Ok true
+  | PMlDsaPub => Ok true
+  | PSlhDsa _ => Ok true
   | PFallback _ => Ok false
+  end.
+
+(* the material type the serializer of a second-round key type writes
+   (model/Secrets.v out_material; the fallback key keeps its own label) *)
+Definition more_material (d : pkd) : N :=
+  match d with
+  | PEd25519Pub => km_public
+  | PEd25519Priv _ | PRsaPriv _ _ _ _ _ | PEcies true _ _ _ | PHpke true _
+  | PJwtEcdsa true _ _ | PSlhDsa true | PJwtRsaPriv _ _ _ _ _ _ _ _ => km_private
+  | PEcies false _ _ _ | PHpke false _ | PJwtEcdsa false _ _ | PJwtRsaPub _ _ _ | PMlDsaPub | PSlhDsa false
+  | PJwtMlDsaPub => km_public
+  | PStreamGcmHkdf _ _ _ | PStreamCtrHmac _ _ _ _ _ | PJwtHmac _ _ => km_symmetric
+  | _ => km_unknown
   end.
 
 Definition modelled_url (kd : keydata) : bool :=
@@ -642,9 +1267,20 @@ Definition modelled_url (kd : keydata) : bool :=
   || url_is kd u_hkdf_prf || url_is kd u_hmac_prf || url_is kd u_aes_cmac_prf
   || url_is kd u_ecdsa_pub || url_is kd u_ecdsa_priv
   || url_is kd u_rsa_pkcs1_pub || url_is kd u_rsa_pss_pub
-  || url_is kd u_chacha || url_is kd u_xchacha || url_is kd u_xaes_gcm.
+  || url_is kd u_chacha || url_is kd u_xchacha || url_is kd u_xaes_gcm
+  || url_is kd u_ed25519_pub || url_is kd u_ed25519_priv
+  || url_is kd u_rsa_pkcs1_priv || url_is kd u_rsa_pss_priv
+  || url_is kd u_ecies_pub || url_is kd u_ecies_priv || url_is kd u_hpke_pub || url_is kd u_hpke_priv
+  || url_is kd u_stream_gcm_hkdf || url_is kd u_stream_ctr_hmac || url_is kd u_jwt_hmac
+  || url_is kd u_jwt_ecdsa_pub || url_is kd u_jwt_ecdsa_priv
+  || url_is kd u_jwt_rsa_pkcs1_pub || url_is kd u_jwt_rsa_pss_pub
+  || url_is kd u_mldsa_pub || url_is kd u_slhdsa_pub || url_is kd u_slhdsa_priv
+  || url_is kd u_jwt_rsa_pkcs1_priv || url_is kd u_jwt_rsa_pss_priv || url_is kd u_jwt_mldsa_pub.
 Definition unmodelled_url (kd : keydata) : bool :=
   existsb (fun u => url_is kd u) u_unmodelled.
+(* outside the 16 key types C13 (model/Secrets.v) was built on *)
+Definition outside_c13_url (kd : keydata) : bool :=
+  existsb (fun u => url_is kd u) u_c13_outside.
 
 (* ------------------------------------------------------------------ *)
 (* keyset/handle.go keysetToEntries + newFromEntries                   *)
@@ -722,6 +1358,25 @@ Definition out_prefix (e : entry) : N :=
   | _ => eprefix e
   end.
 
+(* out_prefix is what model/Secrets.v (C13) is stated over and covers the 16
+   first-round key types; for the key types modelled later the serializers
+   do this: ECIES has no LEGACY variant either (variantFromProto maps LEGACY
+   to VariantCrunchy). *)
+Definition shown_prefix (e : entry) : N :=
+  match ekey e with
+  | PEcies _ _ _ _ => if eprefix e =? pt_legacy then pt_crunchy else eprefix e
+  | PStreamGcmHkdf _ _ _ | PStreamCtrHmac _ _ _ _ _ => pt_raw     (* always serialised as RAW *)
+  | _ => out_prefix e
+  end.
+
+(* the id requirement the key object reports (Key.IDRequirement): the
+   streaming AEAD keys never have one *)
+Definition shown_req (e : entry) : option N :=
+  match ekey e with
+  | PStreamGcmHkdf _ _ _ | PStreamCtrHmac _ _ _ _ _ => None
+  | _ => ereq e
+  end.
+
 (* keyset/handle.go hasSecrets: only ASYMMETRIC_PUBLIC and REMOTE are free of
    secrets, every other value of the (open) enum counts as secret (nil-safe
    getters: a nil key or nil key data has material type UNKNOWN_KEYMATERIAL) *)
@@ -770,6 +1425,12 @@ Definition read_encrypted (kek_dec : bytes -> bytes -> option bytes) (b ad : byt
 Definition any_unmodelled (ks : keyset) : bool :=
   existsb (fun k => match k with
                     | Some k => match k_data k with Some kd => unmodelled_url kd | None => false end
+                    | None => false
+                    end) (ks_keys ks).
+
+Definition any_outside_c13 (ks : keyset) : bool :=
+  existsb (fun k => match k with
+                    | Some k => match k_data k with Some kd => outside_c13_url kd | None => false end
                     | None => false
                     end) (ks_keys ks).
 
